@@ -14,6 +14,10 @@ class Validation:
         seg = self.get("sid"+n).line
         seq = seg.sequence
         if not gfapy.is_placeholder(seq):
+          if not isinstance(seq, str):
+            raise gfapy.TypeError(
+                "Segment: {}\n".format(str(seg))+
+                "the sequence is not a string")
           seqlen = len(seq)
           for pfx in ["beg", "end"]:
             fn = pfx+n
